@@ -55,6 +55,11 @@ CHECKS["C15"] = dict(cat=MC, engine="E2 explicit-state BFS over reload histories
    text="Histories: from every reachable rule-list state and from non-initial histories up to depth 3 (thorough 4), every event - POST of each of 4 valid lists, of each list broken at each position by a syntax error / type error / unknown target, GET-then-POST-back - runs through the real post_rules/get_rules handlers; after each event 6 probe requests are decided by the real process_request and compared with the first-match reference for the list that must be in force. Race: 1-2 rules_post callers, 2 process_request tasks whose decision distinguishes old, new and mixed evaluation, a request that starts after the POST returned, plus a read-holder gate and a no-op writer that make every lock acquisition a scheduling point.",
    note="Trusts: serde deserializer = the axum extractor's; lock-contention injector models other worker threads. main()'s dispatch loop and the HTTP layer are only reachable in the real binary (E4 part).",
    ref="DESIGN.md §3 C15")
+CHECKS["C18"] = dict(cat=MC, engine="E2 xseq (single-node mutation enumeration through main()'s load sequence; child processes for abort hazards) + E4 real binary",
+   technique="exhaustive single-node mutation of configuration documents through the real load/init/verify sequence under catch_unwind; all balancer member digraphs and rule-JSON mutations/nesting depths in child processes; real-binary --test / start-up / traffic grid",
+   text="Every YAML node of three base documents is deleted, retyped (10 values), duplicated or given special names and loaded exactly as main() does; every member digraph on 1-2 (thorough 3) balancers + direct is loaded and probed with one request per balancer in a child process; a rule list with every field mutated (16 values) and 10 nesting forms at depths 10..10000 (thorough 100000) is posted through the real handler in a child process; 51 configuration mutants go through the real binary's --test, start-up, one request per listener, a rule POST naming every connector and a GC pass.",
+   note="A child process dying stands for the proxy dying. load() mirrors main()'s sequence (Config::load's own validation and clap handling only via the real binary). Kernel scheduling uncontrolled in the E4 part.",
+   ref="DESIGN.md §3 C18")
 NOT_YET = "check not built yet in this revision (see DESIGN.md §3 for the planned model-checking design)"
 def main():
     checks = []
